@@ -1,6 +1,8 @@
 (* C03, lexical level: the manual's escape sequences (EscLua) against the ones the code accepts (EscCode).
    - lex_lua_code : every text that is lexically valid with the manual's escapes is valid with the code's (same tokens);
-   - lex_code_lua : conversely when no_bad_escape holds of the text.
+   - lex_code_lua : conversely when no_bad_escape holds of the text;
+   - lex_fx_lua / lex_lua_fx : the grammar with the escapes the REPAIRED code accepts silently (EscFx true) is the manual's
+     grammar, no guard; lex_fx_code / lex_code_fx : with EscFx false it is the grammar with the code's old escapes.
    Pure facts about Spec/LuaLex.v; the model is not involved. *)
 From Coq Require Import List NArith ZArith Bool Arith Lia ZifyNat ZifyN ZifyBool.
 From LH Require Import Base.Bytes Model.Lexer Spec.LuaNumeral Spec.LuaLex.
@@ -46,9 +48,6 @@ Qed.
 
 Lemma plain_weak q a : Forall (plain q) a -> Forall (fun c => c <> q /\ c <> 92) a.
 Proof. apply Forall_impl. intros c (H1 & H2 & _). split; assumption. Qed.
-
-Lemma simple_escape_eq c : simple_escape c = existsb (fun x => x =? c) [97; 98; 102; 110; 114; 116; 118; 92; 34; 39].
-Proof. reflexivity. Qed.
 
 Lemma simple_escape_char c : simple_escape c = true ->
   lx_newline c = false /\ c <> 120 /\ c <> 122 /\ lx_digit c = false.
@@ -211,6 +210,124 @@ Proof.
     apply (nbe_skip _ Hno) in Hn. destruct (IH Hn) as [A B]. split; [|exact B].
     apply esc_code_lua; assumption.
 Qed.
+
+(* every escape sequence of the manual passes the boolean test used by the guard *)
+Lemma esc_lua_legal e r : EscLua e r -> legal_escape (e ++ r) = true.
+Proof.
+  intros [c r0 Hs|c r0 Hn Hr|c d r0 Hc Hd Hne|ws r0 Hw Hr|h1 h2 r0 H1 H2|ds r0 Hne Hd Hlen Hmax Hval|hs r0 Hne Hh Hval];
+    cbn [app]; unfold legal_escape.
+  - rewrite Hs. reflexivity.
+  - rewrite Hn, orb_true_r. reflexivity.
+  - rewrite Hc, orb_true_r. reflexivity.
+  - reflexivity.
+  - cbn [simple_escape]. replace (simple_escape 120 || lx_newline 120 || (120 =? 122)) with false by reflexivity.
+    cbn [N.eqb Pos.eqb]. rewrite H1, H2. reflexivity.
+  - destruct ds as [|c ds']; [congruence|]. cbn [app forallb] in *. pose proof Hd as Hd0.
+    apply andb_true_iff in Hd as [Hc Hds].
+    replace (simple_escape c || lx_newline c || (c =? 122)) with false
+      by (rewrite simple_escape_eq; cbn [existsb]; unfold lx_newline, lx_digit in *; lia).
+    replace (c =? 120) with false by (unfold lx_digit in Hc; lia). rewrite Hc.
+    apply N.leb_le.
+    assert (E : firstn 3 (take_while lx_digit (c :: ds' ++ r0)) = c :: ds'); [|rewrite E; exact Hval].
+    destruct Hmax as [H3|Hr].
+    + cbn [take_while]. rewrite Hc.
+      assert (P : forall (a b : list N), forallb lx_digit a = true -> exists x, take_while lx_digit (a ++ b) = a ++ x).
+      { induction a as [|y a IH]; intros b Ha; cbn [app]; [eexists; reflexivity|]. cbn [forallb] in Ha.
+        apply andb_true_iff in Ha as [Hy Ha]. cbn [take_while]. rewrite Hy. destruct (IH b Ha) as [x ->]. eexists. reflexivity. }
+      destruct (P ds' r0 Hds) as [x ->].
+      change (c :: ds' ++ x) with ((c :: ds') ++ x). rewrite firstn_app. cbn [length] in H3 |- *.
+      replace (3 - S (length ds'))%nat with 0%nat by lia. rewrite firstn_O, app_nil_r.
+      apply firstn_all2. cbn [length]. lia.
+    + change (c :: ds' ++ r0) with ((c :: ds') ++ r0). rewrite (take_while_app lx_digit (c :: ds') r0 Hd0 Hr).
+      apply firstn_all2. exact Hlen.
+  - replace (simple_escape 117 || lx_newline 117 || (117 =? 122)) with false by reflexivity.
+    cbn [N.eqb Pos.eqb lx_digit N.leb N.compare Pos.compare Pos.compare_cont andb]. cbn [app].
+    rewrite <- app_assoc. cbn [app].
+    assert (T : take_while lx_xdigit (hs ++ 125 :: r0) = hs) by (apply take_while_app; [exact Hh|reflexivity]).
+    rewrite T. rewrite skipn_app, Nat.sub_diag, skipn_all. cbn [app skipn hd_is].
+    destruct hs as [|h hs']; [congruence|]. cbn [negb andb N.eqb Pos.eqb]. apply N.ltb_lt. exact Hval.
+Qed.
+
+
+(* ------------------------------------------------------------------ the variants of the code (EscFx) *)
+Lemma lex_str_mono (E1 E2 : list N -> list N -> Prop) :
+  (forall q l r, quote q -> StrItems E1 q l r -> StrItems E2 q l r) ->
+  forall bs ts, Lex E1 bs ts -> Lex E2 bs ts.
+Proof.
+  intros HM. induction 1 as [bs HS|bs r1 t r ts HS HT _ IH].
+  - apply Lex_end. exact HS.
+  - eapply Lex_token; [exact HS| |exact IH].
+    destruct HT as [c body r0 H1 H2 H3|bs0 H|bs0 w k H1 H2|q bs0 r0 Hq HS'|bs0 r0 HL].
+    + apply Tk_name; assumption.
+    + apply Tk_number; assumption.
+    + apply Tk_op; assumption.
+    + apply Tk_short; [exact Hq|]. apply HM; assumption.
+    + apply Tk_long; assumption.
+Qed.
+
+Lemma str_esc_mono (E1 E2 : list N -> list N -> Prop) q :
+  (forall e r, E1 e r -> E2 e r) -> forall l r, StrItems E1 q l r -> StrItems E2 q l r.
+Proof.
+  intros HM. induction 1 as [r|c bs r H1 H2 H3 _ IH|e bs r He _ IH].
+  - constructor.
+  - apply SI_plain; assumption.
+  - apply SI_esc; [apply HM; exact He|exact IH].
+Qed.
+
+(* before the repair: all of EscCode *)
+Theorem lex_fx_code fx bs ts : Lex (EscFx fx) bs ts -> Lex EscCode bs ts.
+Proof. apply lex_str_mono. intros q l r _. apply str_esc_mono. apply esc_fx_code. Qed.
+
+Theorem lex_code_fx bs ts : Lex EscCode bs ts -> Lex (EscFx false) bs ts.
+Proof. apply lex_str_mono. intros q l r _. apply str_esc_mono. apply esc_code_fx_false. Qed.
+
+(* after the repair: exactly the manual's escapes *)
+Lemma str_fx_lua q (Hq : quote q) : forall l r, StrItems (EscFx true) q l r -> StrItems EscLua q l r.
+Proof.
+  induction 1 as [r|c bs r H1 H2 H3 _ IH|e bs r [He Hl] _ IH].
+  - constructor.
+  - apply SI_plain; assumption.
+  - apply esc_code_lua; [exact Hq|exact He|exact (Hl eq_refl)|exact IH].
+Qed.
+
+Lemma si_esc_legal fx q e bs r :
+  EscCode e bs -> legal_escape (e ++ bs) = true -> StrItems (EscFx fx) q bs r -> StrItems (EscFx fx) q (92 :: e ++ bs) r.
+Proof. intros He Hl HS. apply SI_esc; [split; [exact He|intros _; exact Hl]|exact HS]. Qed.
+
+Lemma str_lua_fx fx q (Hq : quote q) : forall l r, StrItems EscLua q l r -> StrItems (EscFx fx) q l r.
+Proof.
+  induction 1 as [r|c bs r H1 H2 H3 _ IH|e bs r He _ IH].
+  - constructor.
+  - apply SI_plain; assumption.
+  - pose proof (esc_lua_legal _ _ He) as Hleg.
+    destruct He as [c r0 Hs|c r0 Hn Hr|c d r0 Hc Hd Hne|ws r0 Hw Hr|h1 h2 r0 H1 H2|ds r0 Hne Hd Hlen Hmax Hval|hs r0 Hne Hh Hval].
+    + apply si_esc_legal; [|exact Hleg|exact IH]. destruct (simple_escape_char c Hs) as (A & B & C & D). apply Ec_char; assumption.
+    + apply si_esc_legal; [|exact Hleg|exact IH]. apply Ec_newline; assumption.
+    + apply si_esc_legal; [|exact Hleg|exact IH]. apply Ec_newline2; assumption.
+    + apply si_esc_legal; [|exact Hleg|exact IH]. apply Ec_z; assumption.
+    + apply si_esc_legal; [|exact Hleg|exact IH]. apply Ec_hex; assumption.
+    + (* \ddd : the code takes every following digit as well *)
+      destruct (take_while_split lx_digit r0) as (A & B & C).
+      set (ds' := take_while lx_digit r0) in *.
+      assert (Er : r0 = ds' ++ skipn (length ds') r0) by (rewrite <- C at 1; symmetry; apply firstn_skipn).
+      rewrite Er, app_assoc. apply si_esc_legal.
+      * apply Ec_dec; [destruct ds; [congruence|discriminate]|rewrite forallb_app, Hd, A; reflexivity|exact B].
+      * rewrite <- app_assoc, <- Er. exact Hleg.
+      * apply (drop_plain _ q ds'); [apply plain_weak, digits_plain; assumption|]. rewrite <- Er. exact IH.
+    + (* \u{XXX} : the code takes `u` and reads the rest as plain bytes *)
+      change (117 :: 123 :: hs ++ [125]) with ([117] ++ (123 :: hs ++ [125])) in *. rewrite <- app_assoc in *.
+      apply si_esc_legal; [apply Ec_char; [reflexivity|discriminate|discriminate|reflexivity]|exact Hleg|].
+      apply add_plain; [|exact IH].
+      constructor; [destruct Hq; subst q; repeat split; discriminate|].
+      apply Forall_app. split; [apply xdigits_plain; assumption|].
+      constructor; [destruct Hq; subst q; repeat split; discriminate|constructor].
+Qed.
+
+Theorem lex_fx_lua bs ts : Lex (EscFx true) bs ts -> Lex EscLua bs ts.
+Proof. apply lex_str_mono. intros q l r Hq. apply str_fx_lua. exact Hq. Qed.
+
+Theorem lex_lua_fx fx bs ts : Lex EscLua bs ts -> Lex (EscFx fx) bs ts.
+Proof. apply lex_str_mono. intros q l r Hq. apply str_lua_fx. exact Hq. Qed.
 
 (* every class consumes a prefix *)
 Lemma long_bracket_prefix bs r : LongBracket bs r -> exists a, bs = a ++ r.
